@@ -285,6 +285,35 @@ impl Property for C17 {
                 .build(&key)
                 .map_err(|e| format!("build with imported key failed: {e:?}"))?;
             let mut recs = vec![e.clone()];
+            // builder shapes: entry keys / values around the RLP short/long string boundary, typed
+            // fields, large sequence numbers
+            for shape in 0..7u8 {
+                let mut b = Enr::<CombinedKey>::builder();
+                match shape {
+                    0 => {
+                        b.add_value(vec![b'k'; 56], &1u8);
+                    }
+                    1 => {
+                        b.add_value(vec![b'k'; 55], &vec![7u8; 56]);
+                    }
+                    2 => {
+                        b.add_value(vec![b'z'; 60], &vec![7u8; 60]).seq(u64::MAX);
+                    }
+                    3 => {
+                        b.ip4([10, 0, 0, 1].into()).udp4(30303).tcp6(9).ip6("fe80::1".parse().unwrap());
+                    }
+                    4 => {
+                        b.client_info("n".into(), "v".into(), Some(String::new())).seq(0);
+                    }
+                    5 => {
+                        b.add_value("", &0u8).add_value([0x80u8], &vec![0u8; 1]).seq(1 << 56);
+                    }
+                    _ => {
+                        b.add_value_rlp("list", vec![0xc3, 0x01, 0xc1, 0x02].into());
+                    }
+                }
+                recs.push(b.build(&key).map_err(|e| format!("build (shape {shape}) with imported key failed: {e:?}"))?);
+            }
             for p in &kc.ports {
                 e.set_udp4(*p, &key).map_err(|e| format!("update with imported key failed: {e:?}"))?;
                 recs.push(e.clone());
